@@ -183,8 +183,9 @@ def bounded_run(fid, tier, seed):
 
 def run_enum(script, tier, seed):
     """an enumeration / structural check living in /verif/checks, run on the real code"""
-    path = os.path.join(ROOT, "checks", script)
-    return sh_json([VENV_PY, path, "--tier", tier, "--seed", str(seed)])
+    parts = script.split()
+    path = os.path.join(ROOT, "checks", parts[0])
+    return sh_json([VENV_PY, path] + parts[1:] + ["--tier", tier, "--seed", str(seed)])
 
 
 def write_replay(prop, name, data):
@@ -255,7 +256,7 @@ def run_property(prop, tier, seed, t0):
     import registry
     spec = registry.PROPS[prop]
     timeout_s = 10 if tier == "quick" else 60
-    known = [k for k in load_known() if prop in k.get("properties", [k.get("property")]) and k.get("status") == "open"]
+    known = [k for k in load_known() if k.get("status") == "open"]
     baseline = load_baseline()
     known_hit = {}
     violations = []       # (name, replay path, tail)
@@ -282,6 +283,10 @@ def run_property(prop, tier, seed, t0):
             errors.append("%s: zero obligations generated" % fid)
         need_bounded = False
         for oid, o in rec["obligations"].items():
+            clause = oid.split("#", 1)[1]
+            rel = [ps for pre, ps in C.CONTRACTS[fid].clause_props.items() if clause.startswith(pre)]
+            if rel and not any(prop in ps for ps in rel):
+                continue          # this clause belongs to other properties' chains
             n_ob += 1
             solver_seconds += o["seconds"]
             for s in o["solvers"]:
@@ -388,7 +393,13 @@ def run_property(prop, tier, seed, t0):
                 violations.append(("witness:" + w, path, ""))
 
     for script in spec.get("enum", []):
+        only = None
+        if isinstance(script, (tuple, list)):
+            script, only = script
         e = run_enum(script, tier, seed)
+        if only is not None:
+            e["failures"] = [f for f in e.get("failures", []) if any(f["obligation"].startswith(p) for p in only)]
+            e["restricted_to"] = list(only)
         enums.append({k: v for k, v in e.items() if k != "failures"} | {"n_failures": len(e.get("failures", []))})
         if e.get("error"):
             errors.append("%s: %s" % (script, e["error"]))
@@ -396,11 +407,13 @@ def run_property(prop, tier, seed, t0):
             assumptions.add(a)
         for f in e.get("failures", []):
             oid = f["obligation"]
-            kf = [k for k in known if k.get("obligation") == oid and (k.get("witness") == f.get("witness") or k.get("match") == "obligation")]
-            if kf:
+            kf = [k for k in known if k.get("obligation") == oid
+                  and all((f.get("witness") or {}).get(a) == b for a, b in (k.get("match_witness") or {}).items())
+                  and (k.get("match_witness") is not None or k.get("match") == "obligation")]
+            if kf and witness_fails(kf[0]):
                 known_hit[kf[0]["id"]] = kf[0]
                 continue
-            path = write_replay(prop, oid + "." + str(len(violations)), dict(property=prop, enum=script, obligation=oid, witness=f.get("witness"), observed=f.get("observed")))
+            path = write_replay(prop, oid + "." + str(len(violations)), dict(property=prop, enum=script.split()[0], obligation=oid, witness=f.get("witness"), observed=f.get("observed")))
             violations.append((oid, path, "" if f.get("witness") is not None else " no-failing-input-found"))
 
     # -------- evidence
